@@ -2064,18 +2064,28 @@ def wls_sparse(
 
     wX = w_std * X if not sp.issparse(X) else X.multiply(w_std)
 
+    # The columns differ orders of magnitude in scale (1/T for gamma, x for
+    # dalpha). Scale them to unit norm before solving, so that long fibers are
+    # solved as accurately as short ones, and scale the solution back.
+    if sp.issparse(wX):
+        col_norm = np.sqrt(np.asarray(wX.multiply(wX).sum(axis=0)).ravel())
+    else:
+        col_norm = np.sqrt(np.asarray(wX**2).sum(axis=0))
+    col_scale = 1 / np.where(col_norm > 0, col_norm, 1.0)
+    wXs = wX.multiply(col_scale[None]).tocsr() if sp.issparse(wX) else wX * col_scale
+
     if x0 is None:
         # noinspection PyTypeChecker
-        out_sol = ln.lsqr(wX, wy, show=verbose, calc_var=True, **solver_kwargs)
-        p_sol = out_sol[0]
+        out_sol = ln.lsqr(wXs, wy, show=verbose, calc_var=True, **solver_kwargs)
+        p_sol = out_sol[0] * col_scale
 
     else:
         wr0 = wy - wX.dot(x0)
 
         # noinspection PyTypeChecker
-        out_sol = ln.lsqr(wX, wr0, show=verbose, calc_var=True, **solver_kwargs)
+        out_sol = ln.lsqr(wXs, wr0, show=verbose, calc_var=True, **solver_kwargs)
 
-        p_sol = x0 + out_sol[0]
+        p_sol = x0 + out_sol[0] * col_scale
 
     # The residual degree of freedom, defined as the number of observations
     # minus the rank of the regressor matrix.
@@ -2086,15 +2096,19 @@ def wls_sparse(
     err_var = np.dot(wresid, wresid) / degrees_of_freedom_err
 
     if calc_cov:
-        arg = wX.T.dot(wX)
+        arg = wXs.T.dot(wXs)
 
+        # With unit-norm columns the singular values are of order one. Those
+        # below 1e-12 belong to combinations of parameters that the data do
+        # not determine at all and are left out of the (pseudo) inverse.
         if sp.issparse(arg):
             # arg_inv = np.linalg.inv(arg.toarray())
-            arg_inv = np.linalg.lstsq(arg.todense(), np.eye(npar), rcond=None)[0]
+            arg_inv = np.linalg.lstsq(arg.todense(), np.eye(npar), rcond=1e-12)[0]
         else:
             # arg_inv = np.linalg.inv(arg)
-            arg_inv = np.linalg.lstsq(arg, np.eye(npar), rcond=None)[0]
+            arg_inv = np.linalg.lstsq(arg, np.eye(npar), rcond=1e-12)[0]
 
+        arg_inv = np.asarray(arg_inv) * np.outer(col_scale, col_scale)
         p_cov = np.array(arg_inv * err_var)
         p_var = np.diagonal(p_cov)
 
@@ -2109,7 +2123,7 @@ def wls_sparse(
             return p_sol, p_var, p_cov, wresid
         return p_sol, p_var, p_cov
 
-    p_var = out_sol[-1] * err_var  # normalized covariance
+    p_var = out_sol[-1] * col_scale**2 * err_var  # normalized covariance
 
     if return_werr:
         return p_sol, p_var, wresid
